@@ -267,7 +267,12 @@ FILE_NAMES = ["a.rs", "b.rs", "c.py", "main.go", "x.bin", "y.bin", "z.exe", "REA
               ".gitkeep", ".env", ".hidden.rs", "a.tar.gz", "foo.", "..x", "données.rs", "日本.md", "my file.txt",
               "Button.tsx", "Button.test.tsx", "Button.module.css", "Icon.tsx", "Icon.test.tsx", "Card.tsx", "card.tsx",
               "mod.rs", "lib.rs", "temp_1", "temp_2.rs", "data.json", "d.tmp", "e.tmp", "snake_case.rs", "CamelCase.rs",
-              "k1.rs", "k2.rs", "k3.rs", "k4.rs", "k5.rs", "k6.rs", "k7.rs", "k8.rs", "v.ign", "w.ign", "ign_me", "\U0001f600.rs"]
+              "k1.rs", "k2.rs", "k3.rs", "k4.rs", "k5.rs", "k6.rs", "k7.rs", "k8.rs", "v.ign", "w.ign", "ign_me", "\U0001f600.rs",
+              ".eslintrc", ".a.b", "x.", ".env.example"]
+# dotfile-like names whose Path::file_stem differs from "text before the last dot", with the companion a directed
+# rule { require = "{stem}.example" } derives from them (std: .env -> .env, .a.b -> .a, ..x -> ., x. -> x)
+DOT_TARGETS = {".env": ".env.example", ".eslintrc": ".eslintrc.example", ".a.b": ".a.example", "..x": "..example",
+               "x.": "x.example", "foo.": "foo.example", ".gitkeep": ".gitkeep.example", ".hidden.rs": ".hidden.example"}
 DIR_NAMES = ["src", "gen", "tests", "lib", "utils", "deep", "a", "b", "c", "vendor", "build", "node_modules", ".git", ".cache",
              "components", "features", "ign_dir", "tmpd", "docs", "Ünï", "x y", "__pycache__", "target", "d1", "d2", "d3", "d4", "d5"]
 
@@ -649,6 +654,50 @@ def scope_pool(rng, root):
     return out
 
 
+def partly_glob(rng, name):
+    """a component that is only PARTLY a glob but still matches `name`: x-*, x?, x[ab], x{a,b} shapes"""
+    if len(name) < 2 or any(ch in name for ch in "*?[]{}!,"):
+        return None
+    k = rng.choice(["star", "q", "class", "alt", "midstar"])
+    if k == "star":
+        return name[:rng.randint(1, len(name) - 1)] + "*"
+    if k == "q":
+        return name[:-1] + "?"
+    if k == "class":
+        return name[:-1] + "[" + name[-1] + "#]"
+    if k == "alt":
+        return name[:-1] + "{" + name[-1] + ",#}"
+    return name[0] + "*" + name[-1]
+
+
+def gen_relative_rule(rng, root):
+    """a rule whose scope has a partly-glob component (in the middle or at the end, with or without a trailing /**),
+    relative_depth = true and max_depth placed so that some matching directory sits at limit-1 / limit / limit+1 / limit+2
+    of the RELATIVE depth (base depth = number of components before the partly-glob one)"""
+    dirs = [n for n in root.walk() if n.kind == "d" and n is not root]
+    rng.shuffle(dirs)
+    for d in dirs:
+        comps = d.path.split("/")
+        j = rng.randint(1, len(comps) - 1)                 # component made partly glob (never the root name)
+        pg = partly_glob(rng, comps[j])
+        if pg is None:
+            continue
+        tail = rng.choice(["", "/**", "/**", "/*"]) if j == len(comps) - 1 else rng.choice(["", "/**"])
+        scope = "/".join(comps[:j] + [pg] + comps[j + 1:]) + tail
+        below = [n for n in d.walk() if n.kind == "d"] if tail else [d]
+        if tail == "/*":
+            below = [n for n in d.children if n.kind == "d"] or [d]
+        if tail == "/**":
+            below = [n for n in below if n is not d] or [d]
+        x = rng.choice(below)
+        rel = x.path.count("/") - j                        # relative depth of x under the real base depth j
+        r = {"scope": scope, "relative_depth": True, "max_depth": max(0, rel - rng.choice([1, 1, 1, 0, 2, -1]))}
+        if rng.random() < 0.3:
+            r["warn_threshold"] = rng.choice(THRESH)
+        return r
+    return None
+
+
 def gen_excludes(rng, cfg, root):
     names = [n for n in root.walk() if n is not root]
     def some_pattern():
@@ -738,6 +787,39 @@ def gen_siblings(rng):
     return out
 
 
+def inject_dotfile_siblings(rng, root, cfg):
+    """put dotfile-like names into 1-3 directories, for each with or without the companion that
+    { match = <name>, require = "{stem}.example" } derives through Path::file_stem, and add the directed rule"""
+    dirs = [n for n in root.walk() if n.kind == "d" and len(n.children) <= 9]
+    if not dirs:
+        return
+    picked = rng.sample(dirs, min(len(dirs), rng.randint(1, 3)))
+    targets = rng.sample(sorted(DOT_TARGETS), rng.randint(1, 3))
+    for d in picked:
+        have = {c.name for c in d.children}
+        for t in targets:
+            if len(d.children) >= 11:
+                break
+            comp = DOT_TARGETS[t]
+            if t not in have:
+                n = Node(t, "f"); n.parent = d; d.children.append(n); have.add(t)
+            r = rng.random()
+            if r < 0.5 and comp not in have:
+                n = Node(comp, "f"); n.parent = d; d.children.append(n); have.add(comp)
+            elif r < 0.6:
+                # a decoy: the name a wrong stem rule would derive (text before the last dot + .example)
+                wrong = (t.rsplit(".", 1)[0] if "." in t else t) + ".example"
+                if wrong not in have and wrong != comp and wrong != ".example":
+                    n = Node(wrong, "f"); n.parent = d; d.children.append(n); have.add(wrong)
+    assign_paths(root)
+    scope = rng.choice(["**", "t/**", rng.choice(picked).path, "**/" + rng.choice(picked).name] if True else [])
+    sibs = []
+    for t in targets:
+        sibs.append({"kind": "directed", "match": rng.choice([t, t, ".*", "*"]), "require": ["{stem}.example"],
+                     "require_list": rng.random() < 0.3, "warn": rng.random() < 0.3})
+    cfg.rules.append({"scope": scope, "siblings": sibs[:2] if len(sibs) > 2 and rng.random() < 0.5 else sibs})
+
+
 def gen_cfg(rng, root, flavour):
     cfg = Cfg()
     pool = scope_pool(rng, root)
@@ -746,6 +828,11 @@ def gen_cfg(rng, root, flavour):
         cfg.g = {"max_files": 0, "max_dirs": 0, "max_depth": 0}
         for _ in range(rng.randint(0, 2)):
             cfg.rules.append({"scope": rng.choice(pool), "relative_depth": rng.random() < 0.5})
+        if rng.random() < 0.4:
+            rr = gen_relative_rule(rng, root)
+            if rr:
+                rr.pop("warn_threshold", None)
+                cfg.rules.append(rr)
         return cfg
     if flavour in ("limits", "mix"):
         gen_level(rng, root, cfg.g, force_limit=True)
@@ -755,6 +842,10 @@ def gen_cfg(rng, root, flavour):
             if rng.random() < 0.35:
                 r["relative_depth"] = True
             cfg.rules.append(r)
+        if rng.random() < 0.4:
+            rr = gen_relative_rule(rng, root)
+            if rr:
+                cfg.rules.insert(rng.randint(0, len(cfg.rules)), rr) if rng.random() < 0.3 else cfg.rules.append(rr)
     if flavour in ("placement", "mix"):
         gm = rng.choice(["none", "allow", "deny", "deny", "deny"])
         if gm == "allow":
@@ -781,6 +872,8 @@ def gen_cfg(rng, root, flavour):
             if rng.random() < 0.3:
                 r["max_files"] = rng.choice([-1, 5, 20])
             cfg.rules.append(r)
+    if flavour in ("siblings", "mix") and rng.random() < (0.5 if flavour == "siblings" else 0.2):
+        inject_dotfile_siblings(rng, root, cfg)
     if len(cfg.rules) > 1 and rng.random() < 0.3:
         rng.shuffle(cfg.rules)
     return cfg
@@ -1091,6 +1184,38 @@ def evaluate(c):
     twice = [p for p, k in seen.items() if k > 1]
     if twice:
         r["prop"]["file-reported-twice"] = twice[:5]
+    # directed sibling rules, by the generator's own reading: a scanned file that the rule's file matcher accepts, in a
+    # directory the rule's scope matches, needs parent/<template with {stem} := std file_stem> among the scanned files
+    if impl["checker_enabled"]:
+        def py_stem(nm):
+            if nm == "..":
+                return nm
+            k = nm.rfind(".")
+            return nm if k <= 0 else nm[:k]
+
+        def joinp(parent, nm):
+            if nm.startswith("/"):
+                return None
+            return "/".join(parent.split("/") + [x for x in nm.split("/") if x not in ("", ".")])
+        fset = set(d["files"])
+        want = []
+        for f in d["files"]:
+            parent, nm = f.rsplit("/", 1)
+            po, fo = impl["oracle"].get(sp + parent), impl["oracle"].get(sp + f)
+            if po is None or fo is None:
+                continue
+            for i, r_ in enumerate(c["cfg"].rules):
+                if i >= len(po["lim"]) or not po["lim"][i]:
+                    continue
+                for k, sb_ in enumerate(r_.get("siblings", [])):
+                    if sb_["kind"] != "directed" or not fo["sib"][i][k]:
+                        continue
+                    for t in sb_["require"]:
+                        if joinp(parent, t.replace("{stem}", py_stem(nm))) not in fset:
+                            want.append((f, "missing_sibling", t, 1, 1, bool(sb_.get("warn")), r_["scope"]))
+        got = [v for v in d["siblings"] if v[1] == "missing_sibling"]
+        if sorted(want, key=repr) != sorted(got, key=repr):
+            r["prop"]["directed-sibling"] = diff_list(sorted(got, key=repr), sorted(want, key=repr))
     # the rule consulted is the one explain names for the parent directory (implementation vs implementation)
     if impl["checker_enabled"]:
         for v in d["placement"]:
@@ -1140,6 +1265,11 @@ def evaluate(c):
         tg.add("rule-matched")
     if any(r_.get("relative_depth") for r_ in cfg.rules):
         tg.add("relative-depth")
+    import re as _re
+    if any(r_.get("relative_depth") and any(_re.search(r"[*?\[{]", x) and _re.search(r"^[^*?\[{]", x) for x in r_["scope"].split("/")) for r_ in cfg.rules):
+        tg.add("relative-depth-partly-glob-component")
+    if any(n.name in DOT_TARGETS for n in c["root"].walk()) and any(s_.get("kind") == "directed" for r_ in cfg.rules for s_ in r_.get("siblings", [])):
+        tg.add("directed-sibling-on-dotfile")
     for v in d["limits"]:
         tg.add(("warn:" if v[5] else "fail:") + v[1])
     for v in d["placement"] + d["siblings"]:
@@ -1165,7 +1295,10 @@ def placement_lists_present(cfg):
 MAP_PATHS = ["src", "src/a", "src/a/b", "src/a/b/c", "lib", "lib/x", "tests", "tests/unit/deep", "a/b/c/d/e", ".", "./src", "", "src/gen", "x y/z",
              "./src/a", "./lib", "./tests/unit/deep", "./a/b/c/d/e"]
 MAP_SCOPES = ["**", "src", "src/**", "src/*", "src/a/**", "**/a", "lib", "*", "tests/**", "{src,lib}", "{src,lib}/**", "src/?", "./src", "a/b/**",
-              "./src/**", "./lib", "./**", "src/a", "lib/x"]
+              "./src/**", "./lib", "./**", "src/a", "lib/x",
+              # components that are only partly a glob: in the middle, at the end, with and without /**
+              "sr*/**", "src/a*/**", "src/[a]/b/**", "sr?/a/**", "s{rc,rx}/**", "src/a/b*", "tests/un*/**", "tests/uni?/deep", "a/b/c*/**",
+              "a/b/[c]/d/**", "a/{b,bb}/c/**", "lib/x*", "li?", "x y/z*", "src/ge[n]", "tests/unit/d*"]
 
 
 def gen_mapcase(rng):
@@ -1183,8 +1316,10 @@ def gen_mapcase(rng):
             r.update(lev())
         if rng.random() < 0.6:
             warn(r)
-        if rng.random() < 0.4:
+        if rng.random() < 0.4 or (set(r["scope"]) & set("*?[{") and not r["scope"].startswith(("*", "{", "./")) and rng.random() < 0.6):
             r["relative_depth"] = True
+            if r.get("max_depth") is None and rng.random() < 0.7:
+                r["max_depth"] = rng.choice([0, 1, 2, 3])
         cfg.rules.append(r)
     if rng.random() < 0.06:
         (cfg.g if not cfg.rules or rng.random() < 0.5 else rng.choice(cfg.rules))[rng.choice(Cfg.LIMS)] = rng.choice([-2, -7])
@@ -1203,9 +1338,17 @@ def gen_mapcase(rng):
             if d.get(k) is not None:
                 points |= {d[k] - 1, d[k], d[k] + 1}
     pts = sorted(p for p in points if p >= 0)
+    # depths around every relative limit: limit + (number of leading scope components, all or all but one) + {0,1,2}
+    dpts = set(pts)
+    for d in cfg.rules:
+        if d.get("relative_depth") and d.get("max_depth") is not None and d["max_depth"] >= 0:
+            nc = len([x for x in d["scope"].split("/") if x])
+            for b in range(0, nc + 1):
+                dpts |= {d["max_depth"] + b, d["max_depth"] + b + 1, d["max_depth"] + b + 2}
+    dpts = sorted(dpts)
     stats = []
     for p in rng.sample(MAP_PATHS, rng.randint(1, 6)):
-        stats.append([p, rng.choice(pts), rng.choice(pts), rng.choice(pts)])
+        stats.append([p, rng.choice(pts), rng.choice(pts), rng.choice(dpts if rng.random() < 0.6 else pts)])
     return {"cfg": cfg, "stats": stats}
 
 
@@ -1288,6 +1431,11 @@ def eval_mapcase(m):
         r["tags"].add(("warn:" if v[5] else "fail:") + v[1])
     if any(sum(s) >= 2 for s in impl["scopes"].values()):
         r["tags"].add("overlapping-rules")
+    import re as _re
+    for i, r_ in enumerate(cfg.rules):
+        if r_.get("relative_depth") and r_.get("max_depth") is not None and any(_re.search(r"[*?\[{]", x) and _re.search(r"^[^*?\[{]", x) for x in r_["scope"].split("/")):
+            if any(sc_[i] for sc_ in impl["scopes"].values() if i < len(sc_)):
+                r["tags"].add("relative-depth-partly-glob-component-matched")
     return r
 
 
@@ -1388,7 +1536,7 @@ def load_structure_corpus():
 C06_PARTS = {"corr": ("stats", "limits", "explain", "cli-explain", "config_ok", "model", "cli", "cli-run", "scope-sites"),
              "prop": ("counts", "limits", "scope-spelling", "valid-config-rejected", "invalid-config-accepted")}
 C07_PARTS = {"corr": ("files", "placement", "siblings", "config_ok", "model", "cli", "cli-run", "scope-sites"),
-             "prop": ("placement", "file-reported-twice", "rule-consulted", "scope-spelling", "valid-config-rejected", "invalid-config-accepted")}
+             "prop": ("placement", "file-reported-twice", "rule-consulted", "directed-sibling", "scope-spelling", "valid-config-rejected", "invalid-config-accepted")}
 
 
 def run_structure(ctx, prop, prop_files, flavours, n_cases, n_cli_every, n_maps, nontrivial):
